@@ -157,6 +157,8 @@ func (c *cacheAPI) dump(file string) error {
 }
 
 // concChild runs histories [from,to) and writes their operations as JSON lines.
+var concOpsDone int64
+
 func concChild(a mon.Args) {
 	var seed int64
 	var from, to int
@@ -171,6 +173,11 @@ func concChild(a mon.Args) {
 	}
 	w := bufio.NewWriter(out)
 	enc := json.NewEncoder(w)
+	// operations that never return: a goroutine parked inside cache code while nothing else moves
+	mon.WatchParked(func() int64 { return atomic.LoadInt64(&concOpsDone) }, 8*time.Second, func(state, site string) {
+		fmt.Fprintf(os.Stderr, "PARKED [%s] in %s after %d operations of histories %d..%d\n", state, site, atomic.LoadInt64(&concOpsDone), from, to)
+		os.Exit(98)
+	})
 	for h := from; h < to; h++ {
 		g := mon.NewRNG(seed, "conc", h)
 		proto := []string{"ipfix", "nf9"}[h%2]
@@ -267,6 +274,7 @@ func concChild(a mon.Args) {
 						}
 					}
 					local = append(local, o)
+					atomic.AddInt64(&concOpsDone, 1)
 				}
 				mu.Lock()
 				ops = append(ops, local...)
@@ -633,7 +641,15 @@ func concMain(args mon.Args) {
 				se, _ := os.ReadFile(filepath.Join(dir, "stderr"))
 				txt := string(se)
 				sig := "conc:child-died"
-				if i := strings.Index(txt, "fatal error:"); i >= 0 {
+				if i := strings.Index(txt, "PARKED ["); i >= 0 {
+					l := txt[i:]
+					if k := strings.IndexByte(l, '\n'); k > 0 {
+						l = l[:k]
+					}
+					if k := strings.Index(l, " in "); k > 0 && len(strings.Fields(l[k+4:])) > 0 {
+						sig = "conc:operations-parked-for-ever:" + strings.Fields(l[k+4:])[0]
+					}
+				} else if i := strings.Index(txt, "fatal error:"); i >= 0 {
 					l := txt[i:]
 					if k := strings.IndexByte(l, '\n'); k > 0 {
 						l = l[:k]
@@ -866,7 +882,7 @@ func concMain(args mon.Args) {
 	if nOverlap == 0 || nConcReads == 0 {
 		run.HarnessError("no overlapping operations were observed: the workload did not produce concurrency")
 	}
-	run.SetRule("race-detector build of the harness+vflow; per history 4-32 goroutines (writer-, reader-, getter-, dumper-leaning roles) over 2-8 (exporter,id) keys, overlapping or disjoint, 200-2000 operations, GOMAXPROCS 2/4/16; every client call recorded {goroutine,key,op,call,return,result} from one monotonic clock: announce(v) = Decode of a template message whose field lengths encode a per-key unique version, lookup = Decode of a data set (version read off the decoded record shape) or IRPC.Get, and every Dump file is loaded back with GetCache and contributes one lookup per key over the dump's interval. A further child announces 384 keys per protocol once and then, around three wall-clock second boundaries, lets 16 goroutines re-announce the SAME definitions and look them up (cache entries carry their announcement time; an unchanged re-announcement seconds later is the everyday concurrent operation no sub-second history produces). Oracles: race log (attributed by frames), child survival, 'observed a complete, announced definition', and porcupine linearizability per key against a register model. distinct = histories with > 50 operations")
+	run.SetRule("race-detector build of the harness+vflow; per history 4-32 goroutines (writer-, reader-, getter-, dumper-leaning roles) over 2-8 (exporter,id) keys, overlapping or disjoint, 200-2000 operations, GOMAXPROCS 2/4/16; every client call recorded {goroutine,key,op,call,return,result} from one monotonic clock: announce(v) = Decode of a template message whose field lengths encode a per-key unique version, lookup = Decode of a data set (version read off the decoded record shape) or IRPC.Get, and every Dump file is loaded back with GetCache and contributes one lookup per key over the dump's interval. A further child announces 384 keys per protocol once and then, around three wall-clock second boundaries, lets 16 goroutines re-announce the SAME definitions and look them up (cache entries carry their announcement time; an unchanged re-announcement seconds later is the everyday concurrent operation no sub-second history produces). Oracles: race log (attributed by frames), child survival (a child in which no operation completes for 8 s while a goroutine is parked on a lock or channel inside cache code reports that and exits), 'observed a complete, announced definition', and porcupine linearizability per key against a register model. distinct = histories with > 50 operations")
 	run.Assume("only schedules that occurred are judged; the race detector makes the locking discipline itself observable beyond them")
 	run.Finish()
 }
